@@ -137,7 +137,9 @@ func (e *TermEnv) Term(v ssa.Value) *T {
 		return t
 	}
 	t := e.term(v)
-	t.V = v
+	if t.V == nil {
+		t.V = v // (a phi or substitution resolved on the path keeps the value it resolved to)
+	}
 	if t.Typ == nil {
 		t.Typ = v.Type()
 	}
@@ -333,6 +335,16 @@ func evalTerm(t *T, asg map[string]*big.Int) (*big.Int, bool) {
 			r.Rsh(x, uint(y.Uint64()))
 		case token.EQL, token.NEQ, token.LSS, token.LEQ, token.GTR, token.GEQ:
 			if cmpHolds(x, t.Op, y) {
+				return big.NewInt(1), true
+			}
+			return big.NewInt(0), true
+		case token.LAND:
+			if x.Sign() != 0 && y.Sign() != 0 {
+				return big.NewInt(1), true
+			}
+			return big.NewInt(0), true
+		case token.LOR:
+			if x.Sign() != 0 || y.Sign() != 0 {
 				return big.NewInt(1), true
 			}
 			return big.NewInt(0), true
